@@ -1,7 +1,7 @@
 #!/usr/bin/env python3
 """dev/equiv.py [names...] — run all twenty checks on each behaviour-preserving rewrite of controls.EQUIV (scratch copies)"""
 import os, sys, shutil, tempfile, subprocess, concurrent.futures as cf
-sys.path.insert(0, "/verif")
+sys.path.insert(0, os.path.dirname(os.path.dirname(os.path.abspath(__file__))))
 from rtcpverif import controls
 ALL = [f"C{i:02d}" for i in range(1, 21)]
 names = sys.argv[1:]
